@@ -194,6 +194,18 @@ p("c04-p-empty-rename", "C04", FA + "epsilon_nfa.py",
   "            if current in self._final_states:\n                return False\n            for symbol in self._input_symbols:\n                for state in self._transition_function(current, symbol):\n                    if state not in processed:",
   "            if self.is_final_state(current):\n                return False\n            for symbol in self._input_symbols:\n                for state in self._transition_function(current, symbol):\n                    if state not in processed:")
 
+p("c05-p-guard-len-ge-1", "C05", "pyformlang/regular_expression/regex_reader.py",
+  '        return bool(self._components) and self._components[0] == "("',
+  '        return len(self._components) >= 1 and self._components[0] == "("')
+p("c05-p-guard-not-empty-list", "C05", "pyformlang/regular_expression/regex_reader.py",
+  '        return bool(self._components) and self._components[0] == "("',
+  '        return self._components != [] and self._components[0] == "("')
+p("c05-p-guard-0-lt-len", "C05", "pyformlang/regular_expression/regex_reader.py",
+  '        return bool(self._components) and self._components[0] == "("',
+  '        return 0 < len(self._components) and self._components[0] == "("')
+b("c05-guard-len-ge-0", "C05", "pyformlang/regular_expression/regex_reader.py",
+  '        return bool(self._components) and self._components[0] == "("',
+  '        return len(self._components) >= 0 and self._components[0] == "("', "token-index-unguarded")
 # ----------------------------------------------------------------------------- C06
 b("c06-no-initial-merge", "C06", FA + "epsilon_nfa.py",
   "        self._create_or_transitions()\n        states = self._states.copy()", "        states = self._states.copy()",
